@@ -114,4 +114,47 @@ theorem reshape_is_printer_model (chw : Char → Nat) (text : List Char) (cw ms 
       (SkimModel.Draw.accumulateTextWidth chw text tabstop).length cw ms me = r := by
   rw [reshape_is_total]; exact total_is_printer_model chw text cw ms me tabstop r h
 
+/-! ### `accumulate_text_width` -/
+
+/-- the translated loop over the characters of the C08 model (`none` = a tab, `some k` = display width `k`) -/
+def interpAcc (tabstop w : Nat) : List (Option Nat) → List Nat
+  | [] => []
+  | c :: cs =>
+    let w' := ReshapeFns.accStep tabstop w c.isNone (c.getD 0)
+    w' :: interpAcc tabstop w' cs
+
+theorem acc_step_is_model (tabstop w : Nat) (c : Option Nat) (ht : 0 < tabstop) :
+    ReshapeFns.accStep tabstop w c.isNone (c.getD 0) = w + (match c with | none => tabstop - w % tabstop | some k => k) := by
+  unfold ReshapeFns.accStep
+  have hmod := Nat.mod_lt w ht
+  cases c <;> simp <;> fn_eq
+
+/-- (`tabstop = 0` is a division by zero in the Rust; `drawShift` returns `none` there) -/
+theorem accumulate_is_model (tabstop w : Nat) (cs : List (Option Nat)) (ht : 0 < tabstop) : interpAcc tabstop w cs = accWidth tabstop w cs := by
+  induction cs generalizing w with
+  | nil => rfl
+  | cons c cs ih =>
+    simp only [interpAcc, accWidth, acc_step_is_model _ _ _ ht, ih]
+    cases c <;> rfl
+
+/-- the same loop over the characters of the C11 model (a width function on `Char`) -/
+def interpAccP (chw : Char → Nat) (tabstop w : Nat) : List Char → List Nat
+  | [] => []
+  | ch :: t =>
+    let w' := ReshapeFns.accStep tabstop w (ch == '\t') (chw ch)
+    w' :: interpAccP chw tabstop w' t
+
+theorem accumulate_is_printer_model (chw : Char → Nat) (tabstop w : Nat) (t : List Char) (ht : 0 < tabstop) :
+    interpAccP chw tabstop w t = SkimModel.Draw.accFrom chw tabstop w t := by
+  induction t generalizing w with
+  | nil => rfl
+  | cons ch t ih =>
+    have hs : ReshapeFns.accStep tabstop w (ch == '\t') (chw ch) = w + (if ch = '\t' then tabstop - w % tabstop else chw ch) := by
+      unfold ReshapeFns.accStep
+      have hmod := Nat.mod_lt w ht
+      by_cases h : ch = '\t' <;> simp [h] <;> fn_eq
+    simp only [interpAccP, SkimModel.Draw.accFrom, hs, ih]
+
+theorem acc_init_is_model : ReshapeFns.accInit = 0 := by decide
+
 end SkimModel.Positions
